@@ -16,3 +16,21 @@ Theorem C08_code_tie : forall sgn L key elm fuel, no_nul key ->
   c_comparer fuel sgn L key elm = Some (comparer sgn L key elm).
 Proof. exact tie_comparer. Qed.
 Print Assumptions C08_code_tie.
+
+(* ---- the tie to the code: src/polyseed.c as TRANSLATED on this run (Gen/CApi.v) ---- *)
+From Coq Require Import String.
+From PS Require Import Base GFDefs PackDefs StoreDefs MiscDefs StrDefs LangDefs ApiDefs GFProofs PackProofs StoreProofs CTieBase CTieLang CTiePhrase CTiePhraseEv CTieSplit CTieApi CTieDecode CTieEncode CTieLocals CTieInject CTieCmp.
+From PS.Gen Require Import Consts PrivConsts Langs.
+From PS.Gen Require CFuns.
+From PS.Gen Require CApi.
+
+(* get_comparer as translated: the comparer selected for a language from its two flags, run as translated, is the mirror comparer of the one token rule *)
+Theorem C08_code_tie_get_comparer :
+  forall (sgn : bool) (L : lang) (li : Z) (key : bytes) (elm : list byte) (fuel : nat),
+         no_nul key ->
+         (Datatypes.length key + 2 <= fuel)%nat ->
+         (Datatypes.length elm + 2 <= fuel)%nat ->
+         cmp_by_code (CApi.get_comparer (flag (l_has_prefix L)) (flag (l_has_accents L)) li) fuel sgn 
+           (zs key) (zs elm) = Some (comparer sgn L key elm).
+Proof. exact @tie_get_comparer. Qed.
+Print Assumptions C08_code_tie_get_comparer.
